@@ -710,6 +710,9 @@ fn fuzz_stage(prop: &str, fam: &Family, runs: u64, seed: u64) -> Result<(Value, 
         .arg("-len_control=0")
         .arg(format!("-max_len={}", fam.max_len))
         .arg(format!("-artifact_prefix={}", artifacts))
+        // a campaign ends after `runs` cases or 15 minutes, whichever comes first (the amount
+        // explored is reported; the verdict never depends on the time)
+        .arg(format!("-max_total_time={}", std::env::var("PVH_FUZZ_SECS").ok().and_then(|s| s.parse::<u64>().ok()).unwrap_or(900)))
         .arg("-print_final_stats=1")
         .current_dir(format!("{}/harness", root))
         .env("PVH_FUZZ_TARGET", format!("{}:{}", prop, fam.name))
